@@ -34,34 +34,9 @@ TYPE_IGNORE_RE = re.compile(r'#\s*type:\s*ignore[^\n]*')
 # module sets
 
 
-QUICK_REAL = [
-	'rogw/tranp/compatible/libralies/classes.py',
-	'rogw/tranp/view/helper/block.py',
-	'rogw/tranp/lang/sequence.py',
-	'rogw/tranp/syntax/ast/entry.py',
-	'rogw/tranp/providers/module.py',
-	'example/FW/string.py',
-	'tests/unit/rogw/tranp/implements/syntax/tranp/test_token.py',
-	'rogw/tranp/syntax/node/embed.py',
-]
-
-
 def real_modules(ctx: Ctx, rng: random.Random, limit: int) -> list[str]:
-	"""module paths (dotted) of real files of /repo without CR characters; thorough: every file, shuffled"""
-	files = [f for f in QUICK_REAL if os.path.exists(os.path.join(common.REPO, f))]
-	if ctx.thorough:
-		extra = [os.path.relpath(f, common.REPO) for f in common.repo_py_files('rogw', 'example', 'tests')]
-		rng.shuffle(extra)
-		files.extend(f for f in extra if f not in files)
-	out = []
-	for f in files:
-		with open(os.path.join(common.REPO, f), 'rb') as fh:
-			if b'\r' in fh.read():
-				continue
-		out.append(f[:-3].replace(os.sep, '.'))
-		if len(out) >= limit:
-			break
-	return out
+	"""module paths (dotted) of real files of the repository without CR characters"""
+	return [f[:-3].replace(os.sep, '.') for f in pygen.real_files(ctx.thorough, rng, limit)]
 
 
 class Project:
@@ -76,7 +51,7 @@ class Project:
 		src, d = pygen.gen_module(rng, n_statements=rng.randint(1, 5))
 		label = f"generated#{i}:{d['unit']}"
 		if eof_variant:
-			src, tag = eof_variant_of(rng, src, d['unit'])
+			src, tag = eof_variant_of(rng, src, d['indent'])
 			label += f':{tag}'
 		mp = f'gen.m{i}'
 		self.proj.write(mp, src)
@@ -215,7 +190,8 @@ def sample_paths(rng: random.Random, nodes: Any, paths: list[str], limit: int) -
 def stream_nodes(ctx: Ctx) -> Stream:
 	rng = ctx.sub_rng('span-nodes')
 	pr = Project(ctx)
-	mods = [pr.add_generated(rng, i) for i in range(ctx.scale(30, 400))]
+	mods = [pr.add_source(f'gen.corpus{k}', src, f'corpus:{name}') for k, (name, src) in enumerate(corpus_modules())]  # replayed first
+	mods += [pr.add_generated(rng, i, eof_variant=(i % 10 == 3)) for i in range(ctx.scale(30, 400))]
 	mods += [pr.add_real(mp) for mp in real_modules(ctx, rng, ctx.scale(4, 60))]
 	per_module = ctx.scale(60, 150)
 	cases = []
@@ -463,6 +439,9 @@ def py_tokens(src: str) -> list[tuple[str, str, tuple[int, int], tuple[int, int]
 
 
 def slice_of(src: str, starts: list[int], b: tuple[int, int], e: tuple[int, int]) -> str | None:
+	if e == (len(starts) + 1, 1) and not src.endswith('\n'):
+		# end of input of a text without final line feed, as seen by a parser that completes the last line
+		e = (len(starts), len(src) - starts[-1] + 1)
 	if not (1 <= b[0] <= len(starts) and 1 <= e[0] <= len(starts)):
 		return None
 	return src[starts[b[0] - 1] + b[1] - 1: starts[e[0] - 1] + e[1] - 1]
@@ -476,12 +455,27 @@ def grammar_literals() -> set[str]:
 	return set(re.findall(r'"([A-Za-z_][A-Za-z_0-9]*)"', text))
 
 
+_FRESH_SEEN: set[tuple[str, str, str]] = set()
+
+
+def add_finding(res: SearchResult, label: str, key: str, path: str, suffix: str, what: str, replay: dict[str, Any]) -> None:
+	"""a failure seen on the fresh tree and again, at the same node, on the restored tree is one finding; a failure of the
+	restored tree alone gets the `:restored` key"""
+	if not suffix:
+		_FRESH_SEEN.add((label, key, path))
+	elif (label, key, path) in _FRESH_SEEN:
+		return
+	res.findings.append(Finding(key=f'{key}{suffix}', what=f'{label}: {what}', replay=replay))
+
+
 def check_tree(label: str, src: str, root: Any, literals: set[str], res: SearchResult, suffix: str) -> None:
 	"""all span statements for one tree (entries through the Entry interface only)"""
 	starts = line_starts(src)
 	eof = (len(starts), len(src) - starts[-1] + 1)
 	ptoks = py_tokens(src)
 	bounds: set[tuple[int, int]] = {eof, (1, 1)}
+	if not src.endswith('\n'):
+		bounds.add((len(starts) + 1, 1))
 	strings: list[tuple[tuple[int, int], tuple[int, int]]] = []
 	named_py: list[tuple[str, tuple[int, int], tuple[int, int]]] = []
 	if ptoks is not None:
@@ -496,7 +490,7 @@ def check_tree(label: str, src: str, root: Any, literals: set[str], res: SearchR
 		res.histogram['cpython-cannot-tokenize'] = res.histogram.get('cpython-cannot-tokenize', 0) + 1
 
 	def find(key: str, what: str, path: str) -> None:
-		res.findings.append(Finding(key=f'{key}{suffix}', what=f'{label}: {what}', replay={'module': label, 'path': path, 'source': src[:20000]}))
+		add_finding(res, label, key, path, suffix, what, {'module': label, 'path': path, 'source': src[:20000]})
 
 	def inside_string(p: tuple[int, int]) -> bool:
 		return any(b < p < e for b, e in strings)
@@ -596,45 +590,53 @@ def expected_marks(src: str, s: tuple[int, int, int, int]) -> tuple[str, str, se
 	return str(s[0]), line.replace('\t', ' '), cols
 
 
-def check_quotations(pr: Project, mp: str, ep: Any, rng: random.Random, limit: int, res: SearchResult, suffix: str) -> None:
+def check_quotations(pr: Project, mp: str, ep: Any, rng: random.Random, limit: int, res: SearchResult, suffix: str, sampled: list[str] | None = None) -> list[str]:
+	"""Returns the sampled paths so that the restored tree is examined at the same nodes as the fresh one."""
 	nodes = diskproj.nodes_of(ep)
 	src = pr.sources[mp]
 	label = pr.labels[mp]
 	filepath = mp.replace('.', os.sep) + '.py'
+	if sampled is None:
+		sampled = sample_paths(rng, nodes, diskproj.all_paths(ep), limit)
 	with chdir(pr.cwd_for(mp)):
-		for k, p in enumerate(sample_paths(rng, nodes, diskproj.all_paths(ep), limit)):
+		for k, p in enumerate(sampled):
 			try:
 				node = nodes.by(p)
+			except Exception:  # noqa: BLE001 - node resolution is C10's subject
+				continue
+			res.cases += 1
+			try:
 				s = sm_of(node.source_map)
-			except Exception:  # noqa: BLE001
+			except Exception as e:  # noqa: BLE001
+				add_finding(res, label, f'source-map-raises:{exc_enum(e)}', p, suffix, f'node.source_map of {p} raises {exc_enum(e)}', {'module': label, 'path': p, 'source': src[:20000]})
 				continue
 			q = render_quotation(node, k)
-			res.cases += 1
 			replay = {'module': label, 'path': p, 'span': list(s), 'quotation': q, 'source': src[:20000]}
 			if None in s:
 				if isinstance(q, str):
-					res.findings.append(Finding(key=f'quotation-raises:{q}:span-none{suffix}', what=f'{label}: reporting an error for {p} (span {s}) raises {q}', replay=replay))
+					add_finding(res, label, f'quotation-raises:{q}:span-none', p, suffix, f'reporting an error for {p} (span {s}) raises {q}', replay)
 				continue
 			if s == (0, 0, 0, 0):
 				# a node without any token has no region; the statement can only be met by not pointing anywhere
 				if isinstance(q, str) or q:
-					res.findings.append(Finding(key=f'quotation-spanless-node{suffix}', what=f'{label}: node {p} has no span, yet the report quotes {q if isinstance(q, str) else q[1:4]}', replay=replay))
+					add_finding(res, label, 'quotation-spanless-node', p, suffix, f'node {p} has no span, yet the report quotes {q if isinstance(q, str) else q[1:4]}', replay)
 				continue
 			exp = expected_marks(src, s)
 			if isinstance(q, str) or len(q) != 4 or exp is None:
-				res.findings.append(Finding(key=f'quotation-missing{suffix}', what=f'{label}: no quotation for {p} span {s}: {q}', replay=replay))
+				add_finding(res, label, 'quotation-missing' if not isinstance(q, str) else f'quotation-raises:{q}', p, suffix, f'no quotation for {p} span {s}: {q}', replay)
 				continue
 			lno, line, cols = exp
 			got_cols = {i for i, ch in enumerate(q[3][8:]) if ch == '^'}
 			other = set(q[3][8:]) - {'^', ' '}
 			if q[1] != f'  {filepath}:{lno}':
-				res.findings.append(Finding(key=f'quotation-line-number{suffix}', what=f'{label}: {p} span {s} reported as {q[1]!r}', replay=replay))
+				add_finding(res, label, 'quotation-line-number', p, suffix, f'{p} span {s} reported as {q[1]!r}', replay)
 			elif q[2] != f'    >>> {line}':
-				res.findings.append(Finding(key=f'quotation-line-text{suffix}', what=f'{label}: {p} span {s} quotes {q[2]!r}, line is {line!r}', replay=replay))
+				add_finding(res, label, 'quotation-line-text', p, suffix, f'{p} span {s} quotes {q[2]!r}, line is {line!r}', replay)
 			elif got_cols != cols or other or not q[3].startswith(' ' * 8):
-				res.findings.append(Finding(key=f'quotation-carets{suffix}', what=f'{label}: {p} span {s} marks columns {sorted(got_cols)[:3]}..{len(got_cols)}, expected {sorted(cols)[:3]}..{len(cols)}', replay=replay))
+				add_finding(res, label, 'quotation-carets', p, suffix, f'{p} span {s} marks columns {sorted(got_cols)[:3]}..{len(got_cols)}, expected {sorted(cols)[:3]}..{len(cols)}', replay)
 			kind = 'multi-line' if s[0] != s[2] else 'single-line'
 			res.histogram[kind] = res.histogram.get(kind, 0) + 1
+	return sampled
 
 
 def corpus_modules() -> list[tuple[str, str]]:
@@ -664,29 +666,89 @@ def search_spans(ctx: Ctx) -> tuple[SearchResult, SearchResult]:
 		mods.append(pr.add_generated(rng, i, eof_variant=(i % 20 == 7)))
 	mods += [pr.add_real(mp) for mp in real_modules(ctx, rng, ctx.scale(6, 200))]
 	seen = set()
+	exercised = 0
+	_FRESH_SEEN.clear()
 	for mp in mods:
+		sampled: list[str] | None = None
 		for restored in (False, True):
+			suffix = ':restored' if restored else ''
 			try:
 				ep = pr.proj.entrypoint(mp)
-			except Exception:  # noqa: BLE001 - outside the grammar
+				root = diskproj.nodes_of(ep)._Nodes__entries.by(ep.full_path)
+			except Exception as e:  # noqa: BLE001
+				if restored:  # the fresh parse succeeded, so the stored form must load
+					add_finding(res, pr.labels[mp], f'restore-raises:{exc_enum(e)}', 'file_input', suffix, f'loading the cached tree raises {exc_enum(e)}', {'module': pr.labels[mp], 'source': pr.sources[mp][:20000]})
+				else:
+					res.histogram['outside-grammar'] = res.histogram.get('outside-grammar', 0) + 1
 				break
-			root = diskproj.nodes_of(ep)._Nodes__entries.by(ep.full_path)
-			suffix = ':restored' if restored else ''
-			if restored and not diskproj.is_restored(root) and root.source_map != {'begin': (0, 0), 'end': (0, 0)}:
-				raise common.InfraError(f'cache path not exercised for {pr.labels[mp]}')
+			if restored and not diskproj.is_restored(root):
+				res.histogram['cache-not-exercised'] = res.histogram.get('cache-not-exercised', 0) + 1
+			elif restored:
+				exercised += 1
 			res.cases += 1
 			seen.add(hash(pr.sources[mp]))
-			check_tree(pr.labels[mp], pr.sources[mp], root, literals, res, suffix)
-			check_quotations(pr, mp, ep, rng, ctx.scale(40, 120), resq, suffix)
+			try:
+				check_tree(pr.labels[mp], pr.sources[mp], root, literals, res, suffix)
+			except Exception as e:  # noqa: BLE001
+				add_finding(res, pr.labels[mp], f'span-raises:{exc_enum(e)}', 'file_input', suffix, f'reading the spans raises {exc_enum(e)}', {'module': pr.labels[mp], 'source': pr.sources[mp][:20000]})
+			sampled = check_quotations(pr, mp, ep, rng, ctx.scale(40, 120), resq, suffix, sampled if restored else None)
 			kind = pr.labels[mp].split('#')[0].split(':')[0] if mp.startswith('gen.') else 'real'
 			res.histogram[kind + suffix] = res.histogram.get(kind + suffix, 0) + 1
 		if len(res.samples) < 2:
 			res.samples.append({'module': pr.labels[mp], 'bytes': len(pr.sources[mp])})
 	res.distinct = len(seen)
 	resq.distinct = resq.cases
-	res.note = 'restrictions: positions inside a CPython STRING token are exempt from the boundary/content checks (quoted annotations are lexed by the grammar as QUOTE NAME QUOTE); CPython NAME tokens that are Python keywords or anonymous literals of grammar.lark, and `# type: ignore` comments (ignored by the grammar) need not be terminals; f-strings are folded into one STRING; files with CR are excluded'
+	if not exercised and not res.findings and not resq.findings:
+		raise common.InfraError('no module was restored from the on-disk cache: the restored half of the search did not run')
+	res.note = 'restrictions: positions inside a CPython STRING token are exempt from the boundary/content checks (quoted annotations are lexed by the grammar as QUOTE NAME QUOTE); CPython NAME tokens that are Python keywords or anonymous literals of grammar.lark, and `# type: ignore` comments (ignored by the grammar) need not be terminals; f-strings are folded into one STRING; files with CR are excluded; for a text without final line feed (lines+1, 1) counts as end of input'
 	resq.note = 'an empty column range is shown by one caret at its position (the renderer\'s documented minimum); nodes whose span has no position (0,0,0,0) must not be quoted at all; CRLF files excluded'
 	return res, resq
+
+
+def search_collector(ctx: Ctx) -> SearchResult:
+	"""The self-hosted parser's error summary: the text standing above the carets is the cause token's own text, on the
+	line the summary names (oracle: the source text itself; no arithmetic of the collector is repeated)."""
+	from rogw.tranp.implements.syntax.tranp.syntax import ErrorCollector
+	from rogw.tranp.implements.syntax.tranp.token import TokenTypes
+	from rogw.tranp.implements.syntax.tranp.tokenizer import Tokenizer
+	rng = ctx.sub_rng('collector')
+	res = SearchResult('ErrorCollector summary: the text above the carets is the cause token, on the named line')
+	tk = Tokenizer()
+	synthetic = {TokenTypes.NewLine, TokenTypes.Indent, TokenTypes.Dedent, TokenTypes.EOF, TokenTypes.Empty}
+	seen = set()
+	for i in range(ctx.scale(60, 800)):
+		src, _ = pygen.gen_module(rng, n_statements=rng.randint(1, 3), unit=rng.choice(['\t', '  ']))
+		try:
+			tokens = tk.parse(src)
+		except Exception:  # noqa: BLE001 - the self-hosted lexer rejects the text (C13's subject)
+			res.histogram['lexer-rejects'] = res.histogram.get('lexer-rejects', 0) + 1
+			continue
+		seen.add(hash(src))
+		lines = src.split('\n')
+		idx = [k for k, t in enumerate(tokens) if t.type not in synthetic and t.string and '\\' not in t.string]
+		for k in rng.sample(idx, min(len(idx), 12)):
+			t = tokens[k]
+			res.cases += 1
+			try:
+				out = ErrorCollector(src, tokens, k).summary().split('\n')
+				head, mark = out[-2], out[-1]
+				m = re.match(r'\((\d+)\) >>> ', head)
+				assert m is not None
+				quoted = head[m.end():]
+				carets = [c for c, ch in enumerate(mark[m.end():]) if ch == '^']
+				above = ''.join(quoted[c] if c < len(quoted) else '' for c in carets)
+				first = t.string.split('\n')[0]
+				ok = int(m.group(1)) - 1 < len(lines) and quoted == lines[int(m.group(1)) - 1] and above == first and len(mark) >= m.end() and set(mark[:m.end()]) <= {' '} and src.split('\n')[int(m.group(1)) - 1][carets[0]:].startswith(first)
+				why = f'line {m.group(1)} quoted {quoted!r}, carets over {above!r}, token {t!r}'
+			except Exception as e:  # noqa: BLE001
+				ok, why = False, f'raises {exc_enum(e)} for token {t!r}'
+			if not ok:
+				res.findings.append(Finding(key='collector-carets', what=why, replay={'source': src, 'steps': k}))
+				break
+			kind = 'multi-line-token' if '\n' in t.string else 'single-line-token'
+			res.histogram[kind] = res.histogram.get(kind, 0) + 1
+	res.distinct = len(seen)
+	return res
 
 
 # ---------------------------------------------------------------------------------------------
@@ -694,6 +756,10 @@ def search_spans(ctx: Ctx) -> tuple[SearchResult, SearchResult]:
 
 STATEMENTS = {
 	'mark': 'the quotation of a node with recorded span (bl,bc)..(el,ec), bc ≥ 1, line bl loadable: label = line bl, quoted text = loaded line bl, carets exactly on columns [bc−1, ec−1) for a one-line span (one caret if empty) and [bc−1, len line) for a span continuing on later lines',
+	'quotation_partial': '_partial of quotation_statement: for spans with four int positions, begin line in the file and begin column ≥ 1 the report exists and points at the span',
+	'quotation_counterexample': '_counterexample of the unguarded statement: the span-less node (0,0)..(0,0) is reported under label 0 (witness corpus/C16/spanless-node.json, key quotation-spanless-node)',
+	'quotation_counterexample_spanless': 'what is printed for it: the LAST line of the file with one caret',
+	'quotation_counterexample_none': 'a span whose end is None makes the report raise TypeError (witness corpus/C16/eof-dedent-span.json)',
 	'mark_line': 'the loaded line is the bl-th piece of readlines = the bl-th piece of split("\\n"), without line feed, every tab replaced by exactly one blank (length and columns preserved)',
 	'mark_aligned': 'quoted line and mark line are printed behind prefixes of equal width',
 	'hull_nest': 'under the hull model (span = first..last consumed token, tokens ordered/non-overlapping) a child span lies inside the parent span',
@@ -709,7 +775,7 @@ def run(ctx: Ctx) -> int:
 	with ctx.timed('correspondence'):
 		streams = [stream_nodes(ctx), stream_quote(ctx), stream_hull(ctx), stream_collector(ctx)]
 	with ctx.timed('search'):
-		searches = list(search_spans(ctx))
+		searches = [*search_spans(ctx), search_collector(ctx)]
 	return common.finish(ctx, proof, streams, searches,
 		statements=STATEMENTS,
 		partial={
